@@ -13,6 +13,8 @@ package main
 // where stop/skip sit, which golden entries mismatch) and so knows the expected observables by
 // construction, from a deliberately naive bookkeeping of files, directories, buffers, variables and
 // outstanding background commands (helper program `vh`: helper.go, genbg.go).
+// Cases of the oracle-only lanes (lanes.go; UpdateScripts with a Setup hook that moves env.Cd: gen16.go)
+// have no model counterpart: flags.modelled() is false and only the expectation is compared.
 
 import (
 	"bytes"
@@ -44,6 +46,10 @@ import (
 
 type flags struct {
 	cont, explicitExec, unique, update, customCmds, customCond bool
+	// lanes without a model counterpart (the expectation comes from the generator alone):
+	deadline bool   // "d": Params.Deadline expires about a second after the start of the run
+	mainCmd  bool   // "m": the script uses `vmain`, the command this binary registers through testscript.Main
+	setupCd  string // "@<hex>": Params.Setup sets env.Cd to this $WORK-relative (slash) directory, which the archive creates
 }
 
 func (f flags) String() string {
@@ -51,24 +57,40 @@ func (f flags) String() string {
 	for _, x := range []struct {
 		b bool
 		c string
-	}{{f.cont, "c"}, {f.explicitExec, "e"}, {f.unique, "n"}, {f.update, "U"}, {f.customCmds, "k"}, {f.customCond, "q"}} {
+	}{{f.cont, "c"}, {f.explicitExec, "e"}, {f.unique, "n"}, {f.update, "U"}, {f.customCmds, "k"}, {f.customCond, "q"}, {f.deadline, "d"}, {f.mainCmd, "m"}} {
 		if x.b {
 			s += x.c
 		}
 	}
 	if s == "" {
-		return "-"
+		s = "-"
+	}
+	if f.setupCd != "" {
+		s += "@" + corr.Hx([]byte(f.setupCd))
 	}
 	return s
 }
 
 func parseFlags(s string) flags {
-	return flags{cont: strings.Contains(s, "c"), explicitExec: strings.Contains(s, "e"), unique: strings.Contains(s, "n"),
-		update: strings.Contains(s, "U"), customCmds: strings.Contains(s, "k"), customCond: strings.Contains(s, "q")}
+	s, cd, _ := strings.Cut(s, "@")
+	f := flags{cont: strings.Contains(s, "c"), explicitExec: strings.Contains(s, "e"), unique: strings.Contains(s, "n"),
+		update: strings.Contains(s, "U"), customCmds: strings.Contains(s, "k"), customCond: strings.Contains(s, "q"),
+		deadline: strings.Contains(s, "d"), mainCmd: strings.Contains(s, "m")}
+	if cd != "" {
+		f.setupCd = string(corr.Unhx(cd))
+	}
+	return f
 }
 
+// modelled: the Lean model knows neither Params.Deadline, nor commands registered through
+// testscript.Main, nor a Setup hook that moves env.Cd; such cases are judged by the generator's
+// expectation only (oracle-only lanes).
+func (f flags) modelled() bool { return !f.deadline && !f.mainCmd && f.setupCd == "" }
+
 // cliable: cmd/testscript can only set ContinueOnError and UpdateScripts.
-func (f flags) cliable() bool { return !f.explicitExec && !f.unique && !f.customCmds && !f.customCond }
+func (f flags) cliable() bool {
+	return !f.explicitExec && !f.unique && !f.customCmds && !f.customCond && f.modelled()
+}
 
 // obs is what is compared between implementation, model and expectation.
 type obs struct {
@@ -78,6 +100,7 @@ type obs struct {
 	tree    []string // sorted "d:path" / "f:path:hexdata", work dir without .tmp
 	file    []byte   // script file bytes afterwards
 	note    string   // crash value etc. (not compared)
+	log     string   // deadline lane only: what the run logged through T.Log (not compared; searched for the time-out message)
 	ioErr   string   // the harness could not set up / read back its own files (not a property of the code under test)
 }
 
@@ -287,6 +310,39 @@ func (r *runner) runReal(fl flags, file []byte) obs {
 	return o
 }
 
+// deadlineAhead: how far ahead Params.Deadline lies in the deadline lane.  RunT reserves two grace
+// periods of 100 ms, so the commands of the script are interrupted about a second after the start.
+// Nothing the lane expects depends on how long that really takes: the only program its scripts run
+// blocks until it is signalled.
+const deadlineAhead = 1200 * time.Millisecond
+
+// fillParams: everything of Params but the files and the work-directory root.
+func (r *runner) fillParams(p *testscript.Params, fl flags, probes *[]string) {
+	p.ContinueOnError = fl.cont
+	p.RequireExplicitExec = fl.explicitExec
+	p.RequireUniqueNames = fl.unique
+	p.UpdateScripts = fl.update
+	// safety net only: a script that waits for a helper nobody ever signals (never generated on the
+	// unchanged tree) is cut off instead of hanging the run
+	p.Deadline = time.Now().Add(4 * time.Minute)
+	if fl.deadline {
+		p.Deadline = time.Now().Add(deadlineAhead)
+	}
+	p.Setup = func(env *testscript.Env) error {
+		env.Setenv("PATH", r.hdir+string(filepath.ListSeparator)+env.Getenv("PATH"))
+		if fl.setupCd != "" { // "The Setup function may modify Vars and Cd as it wishes."
+			env.Cd = filepath.Join(env.WorkDir, filepath.FromSlash(fl.setupCd))
+		}
+		return nil
+	}
+	if fl.customCmds {
+		p.Cmds = customCmds(probes)
+	}
+	if fl.customCond {
+		p.Condition = customCond
+	}
+}
+
 func (r *runner) runRealOnce(fl flags, file []byte) obs {
 	dir := r.newDir()
 	script := filepath.Join(dir, "s.txt")
@@ -299,26 +355,10 @@ func (r *runner) runRealOnce(fl flags, file []byte) obs {
 	}
 	var probes []string
 	p := testscript.Params{
-		Files:               []string{script},
-		WorkdirRoot:         wroot,
-		ContinueOnError:     fl.cont,
-		RequireExplicitExec: fl.explicitExec,
-		RequireUniqueNames:  fl.unique,
-		UpdateScripts:       fl.update,
-		// safety net only: a script that waits for a helper nobody ever signals (never generated on the
-		// unchanged tree) is cut off instead of hanging the run
-		Deadline: time.Now().Add(4 * time.Minute),
-		Setup: func(env *testscript.Env) error {
-			env.Setenv("PATH", r.hdir+string(filepath.ListSeparator)+env.Getenv("PATH"))
-			return nil
-		},
+		Files:       []string{script},
+		WorkdirRoot: wroot,
 	}
-	if fl.customCmds {
-		p.Cmds = customCmds(&probes)
-	}
-	if fl.customCond {
-		p.Condition = customCond
-	}
+	r.fillParams(&p, fl, &probes)
 	t := &recT{}
 	func() {
 		defer func() {
@@ -330,6 +370,9 @@ func (r *runner) runRealOnce(fl flags, file []byte) obs {
 		testscript.RunT(t, p)
 	}()
 	o := obs{verdict: t.verdict, line: -1, probes: probes, note: t.note}
+	if fl.deadline {
+		o.log = t.log.String()
+	}
 	if m := failLineRE.FindStringSubmatch(t.log.String()); m != nil {
 		n, _ := strconv.Atoi(m[2])
 		o.line = n
@@ -553,8 +596,16 @@ func runTsRun(tier string, seed int64, model string, replay string) *corr.Result
 	}
 
 	var cases []*tcase
+	var groups []*mgroup // several script files in one RunT call (lanes.go)
 	var replayGroup []int
-	if strings.HasPrefix(replay, "cli-multi ") {
+	if strings.HasPrefix(replay, "files-multi ") {
+		var g *mgroup
+		if g, cases = decodeMultiGroup(replay); g == nil {
+			res.Observations = append(res.Observations, "unreadable replay input")
+			return res
+		}
+		groups = append(groups, g)
+	} else if strings.HasPrefix(replay, "cli-multi ") {
 		// several scripts in one cmd/testscript invocation
 		for _, h := range strings.Split(strings.TrimPrefix(replay, "cli-multi "), ",") {
 			replayGroup = append(replayGroup, len(cases))
@@ -580,19 +631,53 @@ func runTsRun(tier string, seed int64, model string, replay string) *corr.Result
 		for i := 0; i < n16; i++ {
 			cases = append(cases, genC16(rng))
 		}
+		// oracle-only lanes (lanes.go): commands registered through testscript.Main, Params.Deadline,
+		// several script files with clashing base names in one RunT call
+		nMain, nDeadline, nGroups := 150, 6, 24
+		if tier == "thorough" {
+			nMain, nDeadline, nGroups = 3000, 30, 300
+		}
+		nDup, nCd := 60, 80
+		if tier == "thorough" {
+			nDup, nCd = 1500, 2000
+		}
+		for i := 0; i < nDup; i++ { // C16: an archive that names a golden file twice
+			cases = append(cases, genC16opt(rng, gen16Opts{dupGolden: true}))
+		}
+		for i := 0; i < nCd; i++ { // C16, oracle-only: a Setup hook that moves env.Cd
+			cases = append(cases, genC16opt(rng, gen16Opts{setupCd: true, dupGolden: i%8 == 7}))
+		}
+		cases = append(cases, laneCorpus()...)
+		for i := 0; i < nMain; i++ {
+			cases = append(cases, genC01opt(rng, genOpts{mainCmd: true}))
+		}
+		for i := 0; i < nDeadline; i++ {
+			cases = append(cases, genDeadline(rng, i))
+		}
+		for i := 0; i < nGroups; i++ {
+			var g *mgroup
+			g, cases = genMultiGroup(rng, i, cases)
+			groups = append(groups, g)
+		}
 	}
 
 	// ---- model (cases with UpdateScripts are also asked without it: the "plain" run)
+	// (cases of the oracle-only lanes — flags.modelled() false — are not put to the model)
 	reqs := make([]string, len(cases))
+	mainIdx := make([]int, len(cases))
 	plainIdx := make([]int, len(cases))
 	allReqs := make([]string, 0, len(cases))
 	for i, c := range cases {
 		reqs[i] = c.request()
-		allReqs = append(allReqs, reqs[i])
+		mainIdx[i] = -1
+		if c.fl.modelled() {
+			mainIdx[i] = len(allReqs)
+			allReqs = append(allReqs, reqs[i])
+		}
 	}
 	for i, c := range cases {
 		plainIdx[i] = -1
-		if c.fl.update {
+		if c.fl.update && c.fl.modelled() {
 			plainIdx[i] = len(allReqs)
 			allReqs = append(allReqs, c.plainRequest())
 		}
@@ -603,7 +688,13 @@ func runTsRun(tier string, seed int64, model string, replay string) *corr.Result
 		res.Disagree("<driver>", "", err.Error())
 		return res
 	}
-	modelOut := allOut[:len(cases)]
+	modelOut := make([]string, len(cases))
+	for i := range cases {
+		modelOut[i] = "not-modelled"
+		if mainIdx[i] >= 0 {
+			modelOut[i] = allOut[mainIdx[i]]
+		}
+	}
 
 	// ---- implementation (in-process RunT, then the CLI), in parallel; results by index
 	impl := make([]obs, len(cases))
@@ -638,6 +729,15 @@ func runTsRun(tier string, seed int64, model string, replay string) *corr.Result
 				}
 			}
 		}(i)
+	}
+	for _, g := range groups {
+		wg.Add(1)
+		sem <- struct{}{}
+		go func(g *mgroup) {
+			defer wg.Done()
+			defer func() { <-sem }()
+			r.runMulti(g, cases)
+		}(g)
 	}
 	wg.Wait()
 
@@ -682,7 +782,9 @@ func runTsRun(tier string, seed int64, model string, replay string) *corr.Result
 			in0 := (&tcase{kind: "c01", fl: fl0, file: c.file, exp: c.exp0}).encode()
 			p := plain[i]
 			pLine := p.String(c.file)
-			if mo0, _, ok := parseModel(allOut[plainIdx[i]], c.file); !ok {
+			if plainIdx[i] < 0 {
+				// oracle-only lane
+			} else if mo0, _, ok := parseModel(allOut[plainIdx[i]], c.file); !ok {
 				res.DisagreeFor(c01, allReqs[plainIdx[i]], pLine, allOut[plainIdx[i]])
 				plainBad = true
 			} else if ms := mo0.String(c.file); ms != pLine {
@@ -712,7 +814,9 @@ func runTsRun(tier string, seed int64, model string, replay string) *corr.Result
 
 		// -- model vs implementation
 		mo, mexit, ok := parseModel(modelOut[i], c.file)
-		if !ok {
+		if mainIdx[i] < 0 {
+			res.Distribution[c.kind+":not-modelled(oracle-only)"]++
+		} else if !ok {
 			res.DisagreeFor(owner, reqs[i], implLine, modelOut[i])
 			res.Distribution["model:"+strings.SplitN(modelOut[i], " ", 2)[0]]++
 		} else {
@@ -752,6 +856,15 @@ func runTsRun(tier string, seed int64, model string, replay string) *corr.Result
 					es = implLine
 				}
 			}
+			if c.c16 != nil && c.c16.dupGolden {
+				// an archive that names a golden file twice: which bytes the script file must hold afterwards
+				// is c16Oracle's business (only the entry the script reads is asserted)
+				e2, g2 := *c.exp, impl[i]
+				e2.file, g2.file = nil, nil
+				if e2.String(c.file) == g2.String(c.file) {
+					es = implLine
+				}
+			}
 			// This is also the verdict-level oracle for background commands and long lines: the expectation
 			// comes from the generator's own bookkeeping (genbg.go), not from the Lean model.  A script in
 			// which an executed line has to fail — a `wait` or `skip` that must report a background command
@@ -761,7 +874,8 @@ func runTsRun(tier string, seed int64, model string, replay string) *corr.Result
 			if es != implLine {
 				var about []string
 				for _, t := range c.tags {
-					if strings.HasPrefix(t, "bg@") || strings.HasPrefix(t, "long-line") || strings.HasPrefix(t, "bad-skip") || strings.HasPrefix(t, "bad-wait") {
+					if strings.HasPrefix(t, "bg@") || strings.HasPrefix(t, "long-line") || strings.HasPrefix(t, "bad-skip") || strings.HasPrefix(t, "bad-wait") ||
+						strings.HasPrefix(t, "deadline") || strings.HasPrefix(t, "main-cmd") || strings.HasPrefix(t, "setup-cd") || strings.Contains(t, "-main-") {
 						about = append(about, t)
 					}
 				}
@@ -770,6 +884,14 @@ func runTsRun(tier string, seed int64, model string, replay string) *corr.Result
 					extra = " {" + strings.Join(about, " ") + "}"
 				}
 				res.Violate(owner[0], in, "expected "+es+" got "+implLine+" "+impl[i].note+" ["+c.recipe+"]"+extra, classOf(c.exp, &impl[i]))
+			}
+		}
+		// -- oracle 1b (C01, deadline lane): a command still running when the run's deadline expires is
+		// interrupted, and its line — negated or not — is reported as failed because of the time-out
+		if c.fl.deadline && c.exp != nil && c.exp.verdict == "fail" {
+			res.OracleChecked["C01"]++
+			if impl[i].verdict == "fail" && !saysTimedOut(impl[i].log) {
+				res.Violate("C01", in, "the run failed, but its log does not say that the test timed out (\""+timedOutMsg+"\"): "+lastLines(impl[i].log, 4)+" ["+c.recipe+"]", "deadline-not-reported")
 			}
 		}
 		// -- oracle 2 (C01): the exit status of the standalone command is the one that belongs to the verdict
@@ -790,6 +912,9 @@ func runTsRun(tier string, seed int64, model string, replay string) *corr.Result
 		if !c.fl.update {
 			process(i, c)
 		}
+	}
+	for _, g := range groups {
+		multiOracle(res, g, cases, impl)
 	}
 	if replay == "" {
 		groups := 60
@@ -824,7 +949,7 @@ func runTsRun(tier string, seed int64, model string, replay string) *corr.Result
 
 	res.Evaluations = len(cases)
 	res.DistinctNontrivial = nontrivial
-	res.Rule = "distinct (flags, script file) cases whose recipe contains at least one of: a line built to fail, stop, skip, a [cond] guard, a negated command, a custom command, exec / a background command / wait / kill, a line of 64 KiB or more, or (C16) a golden entry compared under UpdateScripts; each case is run through testscript.RunT with a recording T, through the Lean model and (builtin-only cases) through the cmd/testscript binary, and verdict, first FAIL line, probe trace, final tree, script bytes and exit status are compared with the model and with the expectation the generator derived from its recipe"
+	res.Rule = "distinct (flags, script file) cases whose recipe contains at least one of: a line built to fail, stop, skip, a [cond] guard, a negated command, a custom command, exec / a background command / wait / kill, a line of 64 KiB or more, or (C16) a golden entry compared under UpdateScripts; each case is run through testscript.RunT with a recording T, through the Lean model and (builtin-only cases) through the cmd/testscript binary, and verdict, first FAIL line, probe trace, final tree, script bytes and exit status are compared with the model and with the expectation the generator derived from its recipe; oracle-only lanes without a model counterpart (judged by the generator's expectation alone): uses of a command registered through testscript.Main with and without RequireExplicitExec, a command still running when Params.Deadline expires (exec and ! exec, in the foreground or collected by wait), several script files with clashing base names in one RunT call with kept work directories (subtest names pairwise distinct, every script reported as when it is run alone), UpdateScripts runs whose Setup hook moved env.Cd into a sub-directory; (C16) archives that name a golden file twice (model and oracle; only the entry the script reads is asserted)"
 	for _, i := range []int{0, 1, len(cases) / 3, len(cases) / 2, len(cases) - 1} {
 		if i >= 0 && i < len(cases) {
 			res.Samples = append(res.Samples, map[string]string{"case": reqs[i], "script": string(cases[i].file), "recipe": cases[i].recipe, "impl": impl[i].String(cases[i].file), "model": modelOut[i]})
